@@ -31,14 +31,22 @@ def oracle_formula(res, ast, m):
     def ast_ids(a):
         return [a["id"]] if a["k"] in ("str", "var") else [i for c in a.get("ch", []) for i in ast_ids(c)]
     ids = sorted({l.id for l in leaves_of(m)} | set(ast_ids(ast)))     # the atoms the formula was WRITTEN over, even if the model lost some
+    # every other formula (decided by the data, so that a replay does the same) walks its truth table with ONE dictionary
+    # object that is updated in place between the calls, as an application that flips one option at a time does
+    inplace = sum(map(ord, json.dumps(ast_json(ast), sort_keys=True))) % 2 == 0
+    shared = {}
     for vals in itertools.product([0, 1], repeat=len(ids)):
         env = dict(zip(ids, vals))
         res.evaluations += 1
         want = ast_sem(ast, env)
-        got = m.evaluate(dict(env)).as_tuple()
+        if inplace:
+            shared.update(env); arg = shared
+        else:
+            arg = dict(env)
+        got = m.evaluate(arg).as_tuple()
         if got != (want, want):
-            return {"op": "truth-function", "model": ast_json(ast), "env": env, "required": want, "observed": list(got),
-                    "problem": f"evaluates to {got} at {env}, documented truth function gives {want}"}
+            return {"op": "truth-function", "model": ast_json(ast), "env": env, "required": want, "observed": list(got), "inplace": inplace,
+                    "problem": f"evaluates to {got} at {env}, documented truth function gives {want}" + (" (the rows of the truth table asked in order on one model object with one dictionary updated in place)" if inplace else "")}
     return None
 
 def small_grammar(depth, leaves):
@@ -359,7 +367,7 @@ def replay(payload):
         print("rule", r["rule"], "model", m, "env", r["env"], "evaluates to", got, "rule means", want)
         return 0 if got == (want, want) else 1
     m = build(r["model"])
-    if "env" in r:
+    if "env" in r and not r.get("inplace"):
         got = m.evaluate(dict(r["env"])).as_tuple(); want = ast_sem(r["model"], r["env"])
         print("model", m, "env", r["env"], "evaluates to", got, "documented truth function", want)
         return 0 if got == (want, want) else 1
